@@ -29,12 +29,14 @@ def _pm(lo, hi):
 
 
 def _lin_coefs(maxlen=5):
-    """generic coefficient list a_0..a_m (m <= 4) whose highest even-order term is dissipative"""
+    """generic coefficient list a_0..a_m, m in 0..6 (tuple lengths 1..7; the documentation allows any length);
+    the even-order terms of order >= 2 are dissipative (a_2 > 0, a_4 < 0, a_6 > 0) unless the
+    Kuramoto-Sivashinsky-like variant is drawn; lists of length 1 and 2 have no dissipation at all"""
 
     def build(t):
-        a0, a1, a2, a3, a4, m, ks = t
-        a = [a0, a1, a2, a3, -abs(a4)]
-        if ks:  # Kuramoto-Sivashinsky like: negative diffusion stabilised by the 4th order
+        a0, a1, a2, a3, a4, a5, a6, m, ks = t
+        a = [a0, a1, a2, a3, -abs(a4), a5, abs(a6)]
+        if ks and m in (2, 3, 4):  # Kuramoto-Sivashinsky like: negative diffusion stabilised by the 4th order
             a[2] = -abs(a2)
             m = 4
         else:
@@ -47,7 +49,9 @@ def _lin_coefs(maxlen=5):
         _f(0.005, 0.2),
         st.one_of(st.just(0.0), _pm(0.001, 0.05)),
         _f(1e-5, 1e-3),
-        st.integers(2, 4),
+        st.one_of(st.just(0.0), _pm(1e-7, 1e-5)),
+        _f(1e-9, 1e-6),
+        st.sampled_from([2, 3, 4, 4, 2, 3, 1, 5, 6, 0]),
         st.booleans(),
     ).map(build)
 
